@@ -153,6 +153,8 @@ def merge(self, feedback):
     let(supp=suppressed(feedback, self.suppressions, self.suppressed_labels))
     let(elig=not supp and shows(feedback))
     let(install=elig and feedback.message is not None and self.message is None)
+    let(scored=not supp and not truthy(feedback.unscored) and feedback.score is not None)
+    let(counts=(fb_truth(feedback) and feedback.valence != -1) or (not fb_truth(feedback) and feedback.valence == -1))
     modifies(items(self.considered), items(self.systems), items(self._scores), items(self.positives),
              items(self.instructions), items(self.used), self.correct, self.success, self.message, self.title,
              self.category, self.label, self.data, feedback.resolved_score)
@@ -167,6 +169,7 @@ def merge(self, feedback):
         same_seq(items(self.considered), old(items(self.considered)) + [feedback]),
         self.message == old(self.message) and self.label == old(self.label) and self.title == old(self.title)
         and self.category == old(self.category) and self.correct == old(self.correct),
+        same_seq(items(self._scores), old(items(self._scores))),
         before="correct, partial, message, title, data = parse_feedback(feedback)")
     cut("scored", not supp,
         same_seq(items(self.considered), old(items(self.considered)) + [feedback]),
@@ -174,6 +177,9 @@ def merge(self, feedback):
         and self.category == old(self.category) and self.correct == old(self.correct),
         correct == feedback.correct and message == feedback.message and title == (feedback.title or feedback.label)
         and data == feedback.fields,
+        implies(scored, same_seq(items(self._scores), old(items(self._scores))
+                                 + [(str_of(feedback.score) if counts else '!' + str_of(feedback.score))])),
+        implies(not scored, same_seq(items(self._scores), old(items(self._scores)))),
         before="""if not feedback and feedback.else_message:
     self.positives.append(feedback)
     return feedback""")
@@ -187,3 +193,9 @@ def merge(self, feedback):
     ensures("correct_updated", implies(elig, truthy(self.correct) == (truthy(feedback.correct) and truthy(old(self.correct)))))
     ensures("correct_kept", implies(not elig, self.correct == old(self.correct)))
     ensures("success_is_correct", implies(elig, self.success == self.correct))
+    # C03: which feedback leaves an entry in the score list, and whether that entry counts ('!' = does not count).
+    # Taken from the statement: unsuppressed, not unscored, carrying a score; counts when triggered and not negative,
+    # or untriggered and negative; muting and else_message play no part.
+    ensures("score_recorded_once", implies(scored, same_seq(
+        items(self._scores), old(items(self._scores)) + [(str_of(feedback.score) if counts else '!' + str_of(feedback.score))])))
+    ensures("score_untouched_otherwise", implies(not scored, same_seq(items(self._scores), old(items(self._scores)))))
